@@ -3,11 +3,9 @@ package verifpkg
 import (
 	"fmt"
 	"strconv"
-	"testing"
 
 	"cosmossdk.io/math"
 	sdk "github.com/cosmos/cosmos-sdk/types"
-	"github.com/tendermint/tendermint/libs/log"
 )
 
 type verifNativeSink struct{}
@@ -30,6 +28,3 @@ func (verifNativeSink) I64(name string, v int64)  { fmt.Printf("CONF\t%s\t%d\n",
 func (verifNativeSink) Bool(name string, v bool)  { fmt.Printf("CONF\t%s\t%v\n", name, v) }
 func (verifNativeSink) Str(name string, v string) { fmt.Printf("CONF\t%s\t%s\n", name, strconv.Quote(v)) }
 
-func TestVerifConformance(t *testing.T) {
-	verifConfCases(verifNativeSink{}, log.NewNopLogger())
-}
